@@ -452,8 +452,18 @@ func (g *generator) walkObject(schema *schemaparser.Schema) (ast.Type, error) {
 	}
 
 	// TODO: finish implementation
+	// properties are walked in a defined order: walking one declares the
+	// definitions it refers to, and the first definition of a name wins.
+	names := make([]string, 0, len(schema.Properties))
+	for name := range schema.Properties {
+		names = append(names, name)
+	}
+	sort.Strings(names)
+
 	fields := make([]ast.StructField, 0, len(schema.Properties))
-	for name, property := range schema.Properties {
+	for _, name := range names {
+		property := schema.Properties[name]
+
 		fieldDef, err := g.walkDefinition(property)
 		if err != nil {
 			return ast.Type{}, fmt.Errorf("%s: %w", name, err)
